@@ -157,6 +157,16 @@ class P:
             tot += x
         return tot
 
+    def abs_subs(s, values):
+        """sum of |coefficient| * prod |value|^e: conditioning bound for float evaluation of this polynomial"""
+        tot = 0.0
+        for m, c in s.t.items():
+            x = abs(float(c))
+            for v, e in m:
+                x *= abs(values[v]) ** e
+            tot += x
+        return tot
+
     def diff_sample(s, o, k=3):
         o = P.const(o)
         keys = [m for m in set(s.t) | set(o.t) if s.t.get(m, 0) != o.t.get(m, 0)]
@@ -215,6 +225,19 @@ def percolation_poly(nodes, edges, root, uvar=lambda v: "u%s" % v, phi="phi", co
             else:
                 t.pop(mon, None)
     return P(t)
+
+
+def percolation_abs(counts, m, root, phi, uvals):
+    """sum of the absolute values of the terms of the expectation: the conditioning of any evaluation order (all counts are
+    positive, so every correct way of grouping the terms has intermediate sums bounded by this)"""
+    tot = 0.0
+    for (k, members), c in counts.items():
+        x = c * abs(phi) ** k * abs(1.0 - phi) ** (m - k)
+        for v in members:
+            if v != root:
+                x *= abs(uvals[v])
+        tot += x
+    return tot
 
 
 def percolation_value(counts, m, root, phi, uvals):
